@@ -106,4 +106,7 @@ func (s RegistrySourceFinal) FinalSourceAddr(realSource RemoteSource) RemoteSour
 // finalRegistrySourcePattern is a non-exhaustive regexp which looks only for
 // the expected three components of a RegistrySourceFinal string encoding: the
 // package address, version, and subpath. The subpath is optional.
-var finalRegistrySourcePattern = regexp.MustCompile(`^(.+)@([^/]+)(//(.+))?$`)
+//
+// The package address never contains "@", so the version starts at the first
+// "@" (a sub-path may legitimately contain further "@" characters).
+var finalRegistrySourcePattern = regexp.MustCompile(`^(.+?)@([^/]+)(//(.+))?$`)
